@@ -103,3 +103,127 @@ def r2_double_sum(n, l, q):
 
 def fjc_moments(n, l):
     return n * l * l, n * l ** 4 * (5.0 * n - 2.0) / 3.0
+
+
+# --- independent <r^2>, <r^4> of the discrete semiflexible chain ----------------------
+# Model of the class docstring / Honnell-Curro-Schweizer: bonds of length l, free torsions,
+# interior bond-angle cosine x in [-1, cos0] (cos0 = 1 - sigma^2/(2 l^2): no overlap of sites
+# two bonds apart) with Boltzmann weight exp(-eps x); eps fixed by <x> = l/lp - 1.
+# Moments are obtained by propagating all monomial moments (degree <= 4) of the end-to-end
+# vector, expressed in the frame of the last bond, through one random (angle, torsion) step at
+# a time.  Nothing of the shipped closed forms (cos_avg, cos_sq_avg, kernel_base) is used.
+
+def _monos(deg=4):
+    out = []
+    for d in range(deg + 1):
+        for a in range(d, -1, -1):
+            for b in range(d - a, -1, -1):
+                out.append((a, b, d - a - b))
+    return out
+
+
+_MONOS = _monos(4)
+_GL48 = leggauss(48)
+
+
+def _mono_eval(P):
+    """P: (m,3) points -> (m, 35) monomial values."""
+    return np.stack([P[:, 0] ** a * P[:, 1] ** b * P[:, 2] ** c for (a, b, c) in _MONOS], axis=1)
+
+
+def angle_nodes(sigma, l, eps):
+    cos0 = 1.0 - sigma * sigma / (2.0 * l * l)
+    x, w = _GL48
+    xs = 0.5 * (cos0 + 1.0) * (x + 1.0) - 1.0
+    ws = 0.5 * (cos0 + 1.0) * w * np.exp(-eps * (xs + 1.0))      # shifted exponent: no overflow
+    ws = ws / ws.sum()
+    return xs, ws
+
+
+def angle_moments(sigma, l, eps):
+    xs, ws = angle_nodes(sigma, l, eps)
+    return float(np.sum(ws * xs)), float(np.sum(ws * xs * xs))
+
+
+def solve_bending_energy(sigma, l, lp):
+    """eps >= 0 with <x>(eps) = l/lp - 1 by bisection (monotone decreasing in eps)."""
+    target = l / lp - 1.0
+    lo, hi = 0.0, 1.0
+    if angle_moments(sigma, l, 0.0)[0] <= target + 1e-15:
+        return 0.0
+    while angle_moments(sigma, l, hi)[0] > target:
+        hi *= 2.0
+        if hi > 1e6:
+            raise ValueError('no bending energy for lp=%r' % lp)
+    for _ in range(80):
+        mid = 0.5 * (lo + hi)
+        if angle_moments(sigma, l, mid)[0] > target:
+            lo = mid
+        else:
+            hi = mid
+    return 0.5 * (lo + hi)
+
+
+_SP = []
+
+
+def _sample_points():
+    if not _SP:
+        rng = np.random.RandomState(12345)             # fixed generic sample points for the coefficient solve
+        pts = rng.uniform(-1.0, 1.0, size=(70, 3))
+        _SP.append((pts, np.linalg.pinv(_mono_eval(pts))))
+    return _SP[0]
+
+
+_MOMCACHE = {}
+
+
+def semiflexible_moments(sigma, l, lp, nmax):
+    """(eps, [(r2_n, r4_n) for n = 1..nmax]) by moment propagation."""
+    key = (float(sigma), float(l), float(lp))
+    if key in _MOMCACHE and len(_MOMCACHE[key][1]) >= nmax:
+        return _MOMCACHE[key][0], _MOMCACHE[key][1][:nmax]
+    res = _semiflexible_moments(sigma, l, lp, max(nmax, 12))
+    _MOMCACHE[key] = res
+    return res[0], res[1][:nmax]
+
+
+def _semiflexible_moments(sigma, l, lp, nmax):
+    eps = solve_bending_energy(sigma, l, lp)
+    xs, ws = angle_nodes(sigma, l, eps)
+    nphi = 10
+    phis = 2 * np.pi * (np.arange(nphi) + 0.37) / nphi
+    pts, Vinv = _sample_points()
+    M = np.zeros((len(_MONOS), len(_MONOS)))
+    for x, w in zip(xs, ws):
+        ct = -x                                        # cosine of the angle between consecutive bond vectors
+        st = math.sqrt(max(0.0, 1.0 - ct * ct))
+        for ph in phis:
+            cp, sp = math.cos(ph), math.sin(ph)
+            # columns: frame n+1 axes expressed in frame n; third column = direction of bond n+1
+            Q = np.array([[ct * cp, -sp, st * cp], [ct * sp, cp, st * sp], [-st, 0.0, ct]])
+            newp = pts @ Q + np.array([0.0, 0.0, l])   # R' = Q^T R + l e_z   (row vectors: R @ Q)
+            G = _mono_eval(newp)                       # mono_a(R') at the sample points
+            coef = Vinv @ G                            # mono_a(R') = sum_b coef[b,a] mono_b(R)
+            M += (w / nphi) * coef.T
+    m = _mono_eval(np.array([[0.0, 0.0, l]]))[0]       # one bond along e_z
+    idx = {mo: i for i, mo in enumerate(_MONOS)}
+    out = []
+    for n in range(1, nmax + 1):
+        r2 = m[idx[(2, 0, 0)]] + m[idx[(0, 2, 0)]] + m[idx[(0, 0, 2)]]
+        r4 = (m[idx[(4, 0, 0)]] + m[idx[(0, 4, 0)]] + m[idx[(0, 0, 4)]]
+              + 2 * (m[idx[(2, 2, 0)]] + m[idx[(2, 0, 2)]] + m[idx[(0, 2, 2)]]))
+        out.append((float(r2), float(r4)))
+        m = M @ m
+    return eps, out
+
+
+def koyama_omega(N, sigma, l, lp, k):
+    """Defining pair sum with the docstring kernel and independently computed moments."""
+    eps, mom = semiflexible_moments(sigma, l, lp, max(1, N - 1))
+    k = np.asarray(k, dtype=float)
+    tot = np.zeros(k.shape)
+    for n in range(1, N):
+        r2, r4 = mom[n - 1]
+        tot = tot + (N - n) * koyama_kernel(k, r2, r4)
+    return 1.0 + 2.0 * tot / N
